@@ -1,5 +1,6 @@
 (* Executable model of odxtools/variantmatcher.py: VariantMatcher.request_loop.
-   A matching parameter is abstracted to (request key, parameter id); the ECU is a
+   A matching parameter is abstracted to (request key, parameter id) -- the key stands for the
+   addressing together with the request bytes, which is what the cache is keyed by --; the ECU is a
    deterministic function from request keys to response ids; [matchf] says whether
    the decoded response satisfies the parameter (decode + path walk, see DESIGN). *)
 From Coq Require Import ZArith List Bool.
